@@ -62,16 +62,12 @@ pub fn tokenize(s: &str) -> Result<Vec<Tok>, String> {
         if c.is_alphabetic() || c == '$' {
             let st = i;
             i += 1;
-            while i < cs.len() && (cs[i].is_alphanumeric()) {
+            // identifier characters incl. '_': `or_1`, `in_k` are names (an index that is bound to
+            // nothing is a literal name fragment); a keyword is a keyword only when the whole word is
+            while i < cs.len() && (cs[i].is_alphanumeric() || cs[i] == '_') {
                 i += 1;
             }
             let word: String = cs[st..i].iter().collect();
-            // a keyword only when the whole word is the keyword (identifier characters, incl. '_',
-            // directly after it make it an identifier)
-            let followed_by_underscore = i < cs.len() && cs[i] == '_';
-            if followed_by_underscore {
-                return Err("indexed names are outside the reference sub-language".into());
-            }
             match KEYWORDS.iter().find(|k| k.0 == word) {
                 Some((_, Some(op))) => out.push(Tok::Op(*op)),
                 Some((_, None)) => out.push(Tok::Not),
